@@ -703,6 +703,8 @@ func (s *Server) handleRequest(req *dhcpv4.DHCPv4) (*dhcpv4.DHCPv4, error) {
 		}
 	}
 
+	s.verifRequestPreWrite()
+
 	s.leasesMu.Lock()
 	s.leases[mac.String()] = lease
 	s.leasesMu.Unlock()
